@@ -211,7 +211,8 @@ Proof.
   rewrite Forall_forall in Hall. destruct (Hall _ Hin) as [_ [_ Hwf]]. simpl in Hwf.
   exists nm, ix, v. split; [exact Hin|]. split; [|exact He].
   unfold ix_wf, new_index in Hwf. rewrite Hk in Hwf. rewrite Hk.
-  destruct (columns ((f, v) :: rest)); try discriminate. cbn [bind] in Hwf.
+  destruct (columns ((f, v) :: rest)) as [cols| | | |]; try discriminate. cbn [bind] in Hwf.
+  destruct (existsb (fun col => dollar_segment (fst col)) cols); [discriminate|].
   destruct rest as [|kv2 rest2]; [reflexivity|]. exfalso.
   replace (0 <? cf_expiry (ix_config ix)) with true in Hwf by lia.
   replace (1 <? len ((f, v) :: kv2 :: rest2)) with true in Hwf; [discriminate|].
